@@ -223,17 +223,26 @@ func Attestation(quote []byte) (*tpmpb.Attestation, error) {
 
 	// Attempt to decode as a raw SEV-SNP attestation.
 	// Get the raw quote and try to extract from the certificates.
-	if at, err := abi.ReportCertsToProto(quote); err == nil {
-		tpmat.TeeAttestation = &tpmpb.Attestation_SevSnpAttestation{SevSnpAttestation: at}
-		return tpmat, nil
+	// The certificate table's entry ranges are checked first: go-sev-guest's own check wraps around.
+	var reportCerts []byte
+	if len(quote) >= abi.ReportSize {
+		reportCerts = quote[abi.ReportSize:]
+	}
+	if extractsev.CheckCertTable(reportCerts) == nil {
+		if at, err := abi.ReportCertsToProto(quote); err == nil {
+			tpmat.TeeAttestation = &tpmpb.Attestation_SevSnpAttestation{SevSnpAttestation: at}
+			return tpmat, nil
+		}
 	}
 	// Attempt to decode as just the SEV-SNP certificate table.
-	certs := new(abi.CertTable)
-	if err := certs.Unmarshal(quote); err == nil {
-		sev.Report = &spb.Report{Measurement: []byte{0}}
-		sev.CertificateChain = certs.Proto()
-		tpmat.TeeAttestation = &tpmpb.Attestation_SevSnpAttestation{SevSnpAttestation: sev}
-		return tpmat, nil
+	if extractsev.CheckCertTable(quote) == nil {
+		certs := new(abi.CertTable)
+		if err := certs.Unmarshal(quote); err == nil {
+			sev.Report = &spb.Report{Measurement: []byte{0}}
+			sev.CertificateChain = certs.Proto()
+			tpmat.TeeAttestation = &tpmpb.Attestation_SevSnpAttestation{SevSnpAttestation: sev}
+			return tpmat, nil
+		}
 	}
 
 	// Attempt to decode as a raw TDX quote.
